@@ -58,7 +58,7 @@ type Crash struct {
 func (c *Crash) Key() string {
 	f := "?"
 	for _, fr := range c.Frames {
-		if strings.Contains(fr, "go-zenon/") {
+		if strings.Contains(fr, "go-zenon/") && !strings.Contains(fr, "common.RecoverStack") && !strings.Contains(fr, "common.DealWithErr") {
 			f = fr[strings.LastIndex(fr, "/")+1:]
 			break
 		}
